@@ -494,6 +494,8 @@ def run_wire(sc: dict) -> list[dict]:
             for c in range(1, sc['n'] + 1):          # one listener per connection: no mix-up
                 await asyncio.start_server(acceptor(c), '0.0.0.0', 4440 + c)
 
+            reported: dict = {}         # bytes the progress callback of connection c has been told about
+
             def moved(c):
                 def cb(data):
                     task = asyncio.current_task()
@@ -505,6 +507,7 @@ def run_wire(sc: dict) -> list[dict]:
                     else:           # bytes moved without a grant
                         lim, reqt, rcur, gt = rig.current(), now, True, now
                     b, a = rig.snap(lim)
+                    reported[c] = reported.get(c, 0) + len(data)
                     rig.events.append(dict(ev='grant', c=c, t=now, n=len(data), cnt=1,
                                            g=rig.gen_of.get(id(lim), rig.nset), rcur=bool(rcur), reqt=reqt, gt=gt,
                                            b=b, a=a))
@@ -572,6 +575,18 @@ def run_wire(sc: dict) -> list[dict]:
                     if not tasks[c - 1].done():
                         tasks[c - 1].cancel()
                         rig.events.append(dict(ev='cancel', c=c, t=ticks(loop)))
+                        await vloop.settle(loop)
+                        # a transfer cancelled between writing a chunk and its progress callback: the chunk is
+                        # on the link (that is what the property counts) but was never reported; account it now
+                        unreported = received[c - 1] - reported.get(c, 0)
+                        if sc['dir'] == 'up' and 0 < unreported <= 8192:
+                            lim = getattr(rig.conns[c - 1], rig.attr)
+                            b, a = rig.snap(lim)
+                            t = ticks(loop)
+                            reported[c] = reported.get(c, 0) + unreported
+                            rig.events.append(dict(ev='grant', c=c, t=t, n=unreported, cnt=1,
+                                                   g=rig.gen_of.get(id(lim), rig.nset), rcur=lim is rig.current(),
+                                                   reqt=t, gt=t, b=b, a=a))
 
             tasks = [asyncio.ensure_future(transfer(i + 1)) for i in range(sc['n'])]
             tasks.append(asyncio.ensure_future(setter()))
